@@ -201,6 +201,21 @@ def gen_cases(rnd, structs, n):
         for agg in two_sse[:1] + one_int_one_sse[:1]:
             for k in range(6, 9):
                 cases.append(([S('f64')] * k + [agg], ret))
+    # an aggregate that does not fit the remaining registers goes to memory WHOLE and gives its registers back: a later
+    # aggregate still gets the leftover register (SysV 3.2.3: "if there are no registers available for any eightbyte of an
+    # argument, the whole argument is passed on the stack" - the assignments made for it are reverted)
+    one_int = [s for s in structs if classify(s) != 'MEMORY' and [k for k, _ in classify(s)] == ['INTEGER']]
+    one_sse = [s for s in structs if classify(s) != 'MEMORY' and [k for k, _ in classify(s)] == ['SSE']]
+    for ret in rets:
+        if two_int and one_int:
+            cases.append(([S('i64')] * 5 + [two_int[0], one_int[0]], ret))
+            cases.append(([S('i64')] * 5 + [two_int[0], one_int[0], two_int[0]], ret))
+        if two_sse and one_sse:
+            cases.append(([S('f64')] * 7 + [two_sse[0], one_sse[0]], ret))
+        if one_int_one_sse and one_sse:
+            cases.append(([S('i64')] * 6 + [one_int_one_sse[0], one_sse[0]], ret))
+        if one_int_one_sse and one_int:
+            cases.append(([S('f64')] * 8 + [one_int_one_sse[0], one_int[0]], ret))
     return [Case(i, p, r) for i, (p, r) in enumerate(cases)]
 
 
